@@ -22,6 +22,8 @@ type scheduler struct {
 	dead     bool
 	race     bool
 	switches int
+	// onlyKinds, when set, restricts preemptive scheduling points to these yield kinds
+	onlyKinds map[string]bool
 }
 
 type shadow struct {
@@ -55,6 +57,13 @@ func (m *Machine) ensureSched(g *G) *scheduler {
 }
 
 func (m *Machine) setPreemptBound(n int) { m.ensureSched(m.curG).bound = n }
+func (m *Machine) setSchedKinds(kinds string) {
+	s := m.ensureSched(m.curG)
+	s.onlyKinds = map[string]bool{}
+	for _, k := range strings.Split(kinds, ",") {
+		s.onlyKinds[strings.TrimSpace(k)] = true
+	}
+}
 func (m *Machine) enableRace()          { m.ensureSched(m.curG).race = true }
 
 func vcJoin(a, b []int) []int {
@@ -231,7 +240,7 @@ func (s *scheduler) schedule(cur *G, kind string) {
 	}
 	var next *G
 	if curRunnable {
-		if s.preempts >= s.bound || len(r) == 1 {
+		if s.preempts >= s.bound || len(r) == 1 || (s.onlyKinds != nil && !s.onlyKinds[kind]) {
 			next = cur
 		} else {
 			// order: current first
@@ -657,6 +666,32 @@ func removeEntry(mo *MapObj, e *MapEntry) {
 	}
 }
 
+func inSyncMapSwap(g *G, fn *ssa.Function, args []Value) Value {
+	st := g.syncMapOp(args)
+	defer g.release(&st.vc)
+	if e := g.mapFind(st.mo, args[1]); e != nil {
+		old := g.m.load(e.V)
+		g.m.store(e.V, args[2])
+		return Tuple{old, g.m.ctx.True}
+	}
+	g.mapStoreNoRace(st.mo, args[1], args[2])
+	return Tuple{(*IfaceV)(nil), g.m.ctx.False}
+}
+
+func inSyncMapCompareAndSwap(g *G, fn *ssa.Function, args []Value) Value {
+	st := g.syncMapOp(args)
+	defer g.release(&st.vc)
+	if e := g.mapFind(st.mo, args[1]); e != nil {
+		cur := g.m.load(e.V)
+		anyT := st.mo.ValT
+		if g.m.cond2("syncmap-cas", g.equal(anyT, cur, args[2])) {
+			g.m.store(e.V, args[3])
+			return g.m.ctx.True
+		}
+	}
+	return g.m.ctx.False
+}
+
 func inSyncMapDelete(g *G, fn *ssa.Function, args []Value) Value {
 	st := g.syncMapOp(args)
 	defer g.release(&st.vc)
@@ -824,6 +859,8 @@ func registerSyncIntrinsics() {
 	intrinsics["(*sync.Map).LoadOrStore"] = inSyncMapLoadOrStore
 	intrinsics["(*sync.Map).LoadAndDelete"] = inSyncMapLoadAndDelete
 	intrinsics["(*sync.Map).Delete"] = inSyncMapDelete
+	intrinsics["(*sync.Map).Swap"] = inSyncMapSwap
+	intrinsics["(*sync.Map).CompareAndSwap"] = inSyncMapCompareAndSwap
 	intrinsics["(*sync.Map).Range"] = inSyncMapRange
 	intrinsics["(*sync.Once).Do"] = inOnceDo
 	intrinsics["(*sync.WaitGroup).Add"] = inWGAdd
